@@ -1196,11 +1196,32 @@ class Product:
                 tg = self._prune(m, tg)
                 s = (m, frozenset(tg.items()))
                 qi = self._intern(s)
+                learn = self._concrete_learn(learn)
                 self.succ[pi].append((qi, learn))
                 self.pred[qi].append((pi, learn))
                 if qi not in seen:
                     seen.add(qi)
                     work.append(qi)
+
+    def _concrete_learn(self, learn):
+        """a fact learned behind `?` arrives as Continue/Break of the ControlFlow value; rules reason about the Option/Result the call
+        returned, so the fact is restated in that vocabulary (Continue -> Some/Ok, Break -> None/Err) when the origin is a call whose
+        return type says which one it is"""
+        if not learn:
+            return learn
+        out = []
+        for origin, var in learn:
+            if var in ("Continue", "Break") and isinstance(origin, tuple) and origin and origin[0] == "call":
+                try:
+                    dty = self.g.term(origin[1]).get("dest_ty", "") or ""
+                except Exception:
+                    dty = ""
+                if re.match(r"^(std|core)::option::Option<", dty):
+                    var = "Some" if var == "Continue" else "None"
+                elif re.match(r"^(std|core)::result::Result<", dty):
+                    var = "Ok" if var == "Continue" else "Err"
+            out.append((origin, var))
+        return tuple(out)
 
     def _combinator_edges(self, inst, n, t, tags, name):
         """out-edges of `recv.<combinator>(closure)`: the closure runs (once) only for the triggering variants of the receiver, so the
